@@ -41,7 +41,17 @@ def run(tier, seed, replay=None):
 
     def g(rng, i):
         np = rng.choice([1, 2, 3, 4, 6]) if i % 8 else rng.choice([17, 20, 33, 35])
-        return gen.gen_match_program(rng, npasses=np, size="small", keyslots=True)
+        prog = gen.gen_match_program(rng, npasses=np, size="small", keyslots=True)
+        if i % 3 == 1:
+            # a bidi font: the mirror.glyph glyph attribute exists and holds glyph ids (numbers with low bits set) on every
+            # glyph - another per-glyph value that must not be taken for the skip bitmap, with or without -p
+            m = rng.choice([1, 3, 7])
+            n_ = prog.nglyphs
+            tgt = [(g_ | m) if (g_ | m) < n_ else ((g_ | 1) if (g_ | 1) < n_ else g_ - 1) for g_ in range(2, n_)]
+            prog.prolog = "Bidi = true;"
+            prog.glyph_stmts = list(prog.glyph_stmts) + ["cMirTarget = glyphid(%s);" % ", ".join(map(str, tgt)),
+                                                         "cMirAll = glyphid(2..%d) {mirror.glyph = cMirTarget};" % (n_ - 1)]
+        return prog
     cases = harness.gen_cases(seed, 14, n, g)
     results = harness.compile_cases(build, work, cases)
     acc, rej = harness.split_accepted(results)
